@@ -16,6 +16,7 @@ git -C /repo archive HEAD icontract | tar -x -C new
 # textual pre-transforms of later fix commits that touch lines many patches quote (applied to both sides of the merge)
 for d in base patched; do
   sed -i 's/^\( *\)if func.__name__ == "__setattr__"$/\1if is_setattr/' $d/icontract/_checkers.py
+  sed -i 's/^\( *\)if inspect.iscoroutine(check):$/\1if inspect.isawaitable(check):/; s/^\( *\)if inspect.iscoroutine(captured):$/\1if inspect.isawaitable(captured):/' $d/icontract/_checkers.py
 done
 CONF=0
 for f in $(cd patched && find icontract -name "*.py"); do
